@@ -979,8 +979,19 @@ impl NodeDeletionEntry {
     ) -> std::result::Result<(), rusqlite::Error> {
         let query = "DELETE FROM _node WHERE room_id=? AND id=?";
         let mut stmt = conn.prepare_cached(query)?;
+        let mut local_stmt = conn.prepare_cached("SELECT mdate FROM _node WHERE room_id=? AND id=?")?;
         for node in nodes {
-            stmt.execute((node.room_id, node.id))?;
+            let local_mdate: Option<i64> = local_stmt
+                .query_row((node.room_id, node.id), |row| row.get(0))
+                .optional()?;
+            if let Some(local_mdate) = local_mdate {
+                //a version more recent than the deleted one is kept, every peer will end with this version
+                if local_mdate <= node.mdate {
+                    stmt.execute((node.room_id, node.id))?;
+                    //the local version can be older than the deleted one
+                    daily_log.set_need_update(node.room_id, &node.entity, local_mdate);
+                }
+            }
             node.write(conn)?;
             daily_log.set_need_update(node.room_id, &node.entity, node.deletion_date);
             daily_log.set_need_update(node.room_id, &node.entity, node.mdate);
